@@ -5,9 +5,9 @@ import (
 	"encoding/hex"
 	"fmt"
 	"math"
+	"os"
 	"strconv"
 	"strings"
-	"time"
 
 	"github.com/pinealctx/neptune/cache"
 	"github.com/pinealctx/neptune/cache/tiny"
@@ -16,6 +16,7 @@ import (
 	"github.com/pinealctx/neptune/syncx/semap"
 
 	"nvharness/lib/corr"
+	"nvharness/lib/sched"
 )
 
 // key types of the harness that implement the two remap interfaces
@@ -237,6 +238,7 @@ type runner struct {
 	seen       map[string]bool
 	wl         *wlState
 	ls         *locksState
+	lockBroken bool // a lock script's group already misbehaved: issue nothing further to it
 }
 
 func (r *runner) hit(key, what string) {
@@ -370,8 +372,10 @@ func (r *runner) line(line string) string {
 		}
 		out, p := guardS(func() string { return strconv.Itoa(call(r.rm)) })
 		if p {
-			// ToBytes has no arm for a HitGroup implementer: under xxhash routing that key type is unsupported by the code
-			if k.ty != "other" && !(k.ty == "hit" && f[0] == "xhash") {
+			switch {
+			case k.ty == "hit" && f[0] == "xhash":
+				r.hitGroupUnsupported(fmt.Sprintf("XHashIndex(HitGroup implementer with Hit()=%s), %d shards", k.text, r.n))
+			case k.ty != "other":
 				r.hit("C17:remap."+fn+":panics", fmt.Sprintf("%s(%s %v), %d shards", fn, k.ty, k.text, r.n))
 			}
 			return out
@@ -486,7 +490,9 @@ func (r *runner) contOp(f []string) string {
 	out, p := guardS(func() string { return do(r.wide) })
 	name := contName[r.kind]
 	if p {
-		if !(k.ty == "hit" && r.xhash) {
+		if k.ty == "hit" && r.xhash {
+			r.hitGroupUnsupported(fmt.Sprintf("%s %s on %s with xxhash routing, %d shards", f[0], f[1], name, r.n))
+		} else {
 			r.hit("C17:"+name+":panics", fmt.Sprintf("%s %s on %d shards (xhash=%v)", f[0], f[1], r.n, r.xhash))
 		}
 		return out
@@ -591,23 +597,34 @@ func (r *runner) lockOp(f []string) string {
 			r.sm.ReleaseRead(k.v, w)
 		}
 	}
-	done := make(chan string, 1)
-	go func() {
-		out, _ := guardS(func() string { once(); once(); return "ok" })
-		done <- out
-	}()
+	// no real time decides anything: the two rounds run in their own goroutine and the harness waits for quiescence
 	name := lockName[r.kind]
-	select {
-	case out := <-done:
-		if out != "ok" && !(k.ty == "hit" && r.xhash) {
-			r.hit("C17:"+name+":panics", fmt.Sprintf("%s %s on %d shards (xhash=%v)", f[0], f[1], r.n, r.xhash))
-		}
-		return out
-	case <-time.After(10 * time.Second):
-		r.hit("C17:"+name+":stuck", fmt.Sprintf("%s %s twice on %d shards (xhash=%v) did not return: acquire and release were routed differently", f[0], f[1], r.n, r.xhash))
+	sc := sched.New()
+	t := sc.Go("lk", func() string { once(); once(); return "ok" })
+	if err := sc.Settle(); err != nil {
+		fmt.Fprintln(os.Stderr, "c17: no quiescent state while waiting for a lock call:", err)
+		os.Exit(2) // harness error, never a verdict
+	}
+	switch st := t.State(); {
+	case st == "ret:ok":
+		return "ok"
+	case st == "parked":
+		r.hit("C17:"+name+":stuck", fmt.Sprintf("%s %s twice on %d shards (xhash=%v): the second acquire is parked — acquire and release were routed differently", f[0], f[1], r.n, r.xhash))
 		r.mode = ""
 		return "stuck"
+	default:
+		if k.ty == "hit" && r.xhash {
+			r.hitGroupUnsupported(fmt.Sprintf("%s %s on %s with xxhash routing, %d shards", f[0], f[1], name, r.n))
+		} else {
+			r.hit("C17:"+name+":panics", fmt.Sprintf("%s %s on %d shards (xhash=%v): %s", f[0], f[1], r.n, r.xhash, st))
+		}
+		return "panic"
 	}
+}
+
+// hitGroupUnsupported: one root cause (ToBytes has no HitGroup arm), one key, whichever entry point shows it
+func (r *runner) hitGroupUnsupported(what string) {
+	r.hit("C17:XHashIndex:HitGroup-key-unsupported", what+": panics `unsupported.type.for.slot` — a key type that implements only remap.HitGroup cannot be routed by xxhash although the property lists HitGroup implementers under both routings")
 }
 
 func runCase(c corr.Case) corr.Result {
